@@ -14,6 +14,8 @@ Handlers of the chart / schema area (`ldriver_chart`):
 * `patterns`   – account / asset / chart-segment patterns, lexer rules, chart patterns (C28)
 * `scriptlit`  – scripts with literal asset / account at the lexer edge, end to end (C28)
 * `postingval` – `Postings.Validate` (C28)
+* `schemadb`   – InsertSchema / GetSchema / ListSchemas through the real SQL store on LeanPG (C30, DB leg)
+* `importlog`  – crafted export stream through the real Import over the SQL store on LeanPG (C28)
 * `scriptvar`  – script variables, meta()-sourced accounts, templates, postings form, end to end (C28)
 * `schemart`   – SchemaData (chart + templates + query templates) JSON round trip (C30)
 -/
@@ -592,6 +594,126 @@ def handleScriptVar : Handler := fun inp out => do
          sig := if prop then "" else
            (if path = "postings" then "C28:postings-path-outside-pattern" else "C28:variable-value-outside-pattern") }
 
+/-! ### importlog: NEW_TRANSACTION logs of a crafted stream through the real Import -/
+
+def rawPostingOfJson' (j : Json) : Except String RawPosting :=
+  match j with
+  | .arr #[.str s, .str d, .str a, .str n] => do
+    let amount ← if n = "" then pure none else do pure (some (← parseInt n))
+    pure { source := s.toList, destination := d.toList, asset := a.toList, amount }
+  | _ => throw "bad posting"
+
+def rawPostingJson (p : RawPosting) : Json :=
+  Json.arr #[.str (String.ofList p.source), .str (String.ofList p.destination), .str (String.ofList p.asset),
+    .str (match p.amount with | some a => toString a | none => "")]
+
+def handleImportLog : Handler := fun inp out => do
+  let txs ← (← arrField inp "txs").mapM fun t => do
+    match t with
+    | .arr ps => ps.toList.mapM rawPostingOfJson'
+    | _ => throw "bad tx"
+  let validates := Ledger.Generated.Grammar.importValidatesCreated
+  let (committed, failed) := importTxs validates txs
+  let txsJson (ts : List (List RawPosting)) : Json := Json.arr (ts.map fun ps => Json.arr (ps.map rawPostingJson).toArray).toArray
+  let model := Json.mkObj [("err", if failed then "invalid" else ""), ("txs", txsJson committed)]
+  let agree := optStrField out "panic" = "" && jsonEq (pick out ["err", "txs"]) model
+  -- C28 on what the implementation stored
+  let gTxs ← (← arrField out "txs").mapM fun t => do
+    match t with
+    | .arr ps => ps.toList.mapM rawPostingOfJson'
+    | _ => throw "bad tx"
+  let gValid := match out.getObjVal? "valid" with | .ok (.bool b) => b | _ => false
+  let wf := gTxs.all fun ps => (postingsValidate ps 0).isNone
+  let prop := gValid && wf
+  let malformedIn := txs.any fun ps => (postingsValidate ps 0).isSome
+  pure { model, agree, prop, nontrivial := !gTxs.isEmpty,
+         tags := [if malformedIn then "stream:malformed" else "stream:well-formed",
+                  if failed then "import:refused" else "import:ok"],
+         note := if prop then "" else "import committed a malformed posting",
+         sig := if prop then "" else "C28:import-commits-malformed-posting" }
+
+/-! ### schemadb: insert + read back through the SQL store (on the MODELLED Postgres) -/
+
+/-- numbers of opaque members as exact rationals, like the harness's `canon` -/
+def numCanon (t : String) : Json :=
+  match Json.parse t with
+  | .ok (.num n) =>
+    let den : Nat := 10 ^ n.exponent
+    let g := Nat.gcd n.mantissa.natAbs den
+    let g := if g = 0 then 1 else g
+    Json.mkObj [("#", Json.str s!"{n.mantissa / (g : Int)}/{den / g}")]
+  | _ => Json.str ("#bad:" ++ t)
+
+partial def ofTreeCanon : JTree → Json
+  | .null => .null
+  | .bool b => .bool b
+  | .num t => numCanon t
+  | .str s => .str s
+  | .arr xs => .arr (xs.map ofTreeCanon).toArray
+  | .obj kvs => Json.mkObj (kvs.map fun (k, v) => (String.ofList k, ofTreeCanon v))
+
+def rawJsonCanon : Option JTree → Json
+  | none => .null
+  | some v => Json.mkObj [("raw", ofTreeCanon v)]
+
+def dumpQueriesCanon (qs : List (Key × QueryTemplate)) : Json :=
+  Json.mkObj (qs.map fun (k, q) => (String.ofList k, Json.mkObj [
+    ("description", q.description), ("resource", q.resource), ("params", rawJsonCanon q.params),
+    ("vars", Json.mkObj (q.vars.map fun (vk, d) => (String.ofList vk,
+      Json.mkObj [("type", d.type.toString), ("default", rawJsonCanon d.default)]))),
+    ("body", rawJsonCanon q.body)]))
+
+def handleSchemaDb : Handler := fun inp out => do
+  let doc ← strField inp "doc"
+  let addrs ← strArrField inp "addrs"
+  let tree := toTree (← Json.parse doc)
+  if (patternsOf tree).any unsupportedPattern then
+    return { model := Json.null, agree := true, nontrivial := false, tags := ["skipped:pattern-outside-subset"] }
+  let gPanic := optStrField out "panic"
+  let gDecodeErr := optStrField out "decodeErr"
+  let gInsertErr := optStrField out "insertErr"
+  match unmarshalSchemaData liteOps tree with
+  | .error _ =>
+    pure { model := Json.mkObj [("decodeErr", "error")], agree := gPanic = "" && gDecodeErr ≠ "",
+           nontrivial := false, tags := ["decode-rejected"] }
+  | .ok s =>
+    let dC := dumpChart s.chart
+    let dT := dumpTemplates s.transactions
+    let dQ := dumpQueriesCanon s.queries
+    let cls := addrs.map (classifyJson s.chart)
+    let model := Json.mkObj [("chart", dC), ("transactions", dT), ("queries", dQ),
+      ("chart2", dC), ("transactions2", dT), ("queries2", dQ), ("classify", Json.arr cls.toArray)]
+    -- the decoded value always has to be the model's; the value read back as well once the insert went through
+    let decodedOk := gDecodeErr = "" && jsonEq (pick out ["chart", "transactions", "queries"]) (pick model ["chart", "transactions", "queries"])
+    if gInsertErr ≠ "" then
+      -- NewSchema's validation of templates / queries and the database's own refusals
+      -- (e.g. a NUL character in a jsonb string) are not part of this model
+      let nul := (doc.splitOn "\\u0000").length > 1
+      return { model, agree := gPanic = "" && decodedOk, nontrivial := false,
+               tags := ["insert-rejected:" ++ (if gInsertErr = "invalid-schema" then "invalid-schema" else if nul then "db-refuses-nul" else "other")],
+               prop := gInsertErr = "invalid-schema" || nul,
+               note := if gInsertErr = "invalid-schema" || nul then "" else "unexpected insert error: " ++ gInsertErr,
+               sig := if gInsertErr = "invalid-schema" || nul then "" else "C30:insert-error" }
+    let gCls ← arrField out "classify"
+    let gCls2 ← arrField out "classify2"
+    let backOk := jsonEq (pick out ["chart2", "transactions2", "queries2"]) (pick model ["chart2", "transactions2", "queries2"])
+    let agree := gPanic = "" && decodedOk && optStrField out "readErr" = "" && backOk &&
+      jsonEq (Json.arr gCls.toArray) (Json.arr cls.toArray)
+    -- C30 on the implementation's own values: read back = inserted
+    let listed := match out.getObjVal? "listed" with | .ok (.bool b) => b | _ => false
+    let prop := gPanic = "" && optStrField out "readErr" = "" && listed &&
+      jsonEq (getD out "chart2" .null) (getD out "chart" .null) &&
+      jsonEq (getD out "transactions2" .null) (getD out "transactions" .null) &&
+      jsonEq (getD out "queries2" .null) (getD out "queries" .null) &&
+      jsonEq (Json.arr gCls.toArray) (Json.arr gCls2.toArray)
+    pure { model, agree, prop, nontrivial := true,
+           tags := ["stored"] ++ (if s.transactions.isEmpty then [] else ["templates"]) ++
+             (if s.queries.isEmpty then [] else ["queries"]) ++
+             (if s.queries.any (fun kq => kq.2.params.isSome || kq.2.body.isSome) then ["raw-members"] else []) ++
+             (if (doc.splitOn ".pattern").length > 1 then ["pattern"] else []),
+           note := if prop then "" else "C30: schema read back from the store differs from the schema inserted",
+           sig := if prop then "" else "C30:db-roundtrip" }
+
 def chartHandlers : List (String × Handler) := [
   ("chartrt", handleChartRt),
   ("enforce", handleEnforce),
@@ -599,6 +721,8 @@ def chartHandlers : List (String × Handler) := [
   ("scriptlit", handleScriptLit),
   ("postingval", handlePostingVal),
   ("scriptvar", handleScriptVar),
+  ("importlog", handleImportLog),
+  ("schemadb", handleSchemaDb),
   ("schemart", handleSchemaRt)
 ]
 
